@@ -2023,3 +2023,41 @@ def _int_from(I, f, a):
     if hasattr(v, "resolve"):
         v = v.resolve(I)
     return I.cast_int(v, m.group(1), m.group(2))
+
+
+@model("std::mem::replace")
+def _mem_replace(I, f, a):
+    old = I.load(a[0])
+    I.store(a[0], a[1])
+    return old
+
+
+@model("std::mem::swap")
+def _mem_swap(I, f, a):
+    x, y = I.load(a[0]), I.load(a[1])
+    I.store(a[0], y)
+    I.store(a[1], x)
+    return unit()
+
+
+@model("std::mem::take")
+def _mem_take(I, f, a):
+    old = I.load(a[0])
+    ty = ((f.get("res") or {}).get("args") or f.get("args") or [""])[0]
+    key = "<%s as std::default::Default>::default" % ty
+    if key in I.prog.bodies:
+        new = I.call(key, [])
+    else:
+        m = I.models.lookup({"path": key, "res": {"path": key}})
+        if m is None:
+            base = ty.split("<")[0]
+            for cand in ("<%s<T> as std::default::Default>::default" % base, "<%s<T, A> as std::default::Default>::default" % base,
+                         "<%s<K, V, S> as std::default::Default>::default" % base):
+                m = MODELS.get(cand)
+                if m:
+                    break
+        if m is None:
+            raise I.unanalysable("mem::take::<%s>" % ty)
+        new = m(I, {"path": key, "args": [ty], "res": {"path": key, "args": [ty]}}, [])
+    I.store(a[0], new)
+    return old
